@@ -1,4 +1,4 @@
-CONSTANTS Stride = 61 NPoly = 12
+CONSTANTS Stride = 23 NPoly = 16
 INIT Init
 NEXT Next
 INVARIANTS Power2RoundLemma DecomposeLemma HintLemma NormLemma MulLemma NTTLemma PackLemma
